@@ -62,7 +62,8 @@ func (c *Ctx) constTableOf(g *ssa.Global) *constTable {
 		case *ssa.Const:
 			return true
 		case *ssa.Function:
-			return x.Parent() == nil
+			// a declared function, or a literal of the initialiser that captures nothing
+			return x.Parent() == nil || (x.Parent() == initFn && len(x.FreeVars) == 0)
 		}
 		return false
 	}
